@@ -291,7 +291,10 @@ impl Sys for FSys {
         self.probe();
     }
     fn fingerprint(&self) -> u64 {
-        h64(&(&self.cnt, &self.bypass, &self.last_vec, self.viol.len(), self.filtering))
+        // the REAL demultiplexing state (hook H6) is part of the key: merging on the reference counters and
+        // the probe vector alone merged [add, filtering off] with [filtering off, add], whose futures differ
+        // in an implementation that mishandles one of them (seed C18-d went unnoticed that way)
+        h64(&(&self.cnt, &self.bypass, &self.last_vec, self.viol.len(), self.filtering, self.rx.verif_state()))
     }
     fn verdicts(&self) -> Vec<(String, String)> {
         self.viol.clone()
